@@ -165,6 +165,21 @@ def run(pid, tier, seed):
                     want = oracle_allow(path, roots, al, [user_root])
                     if want is not None and got != want:
                         chk.fail("allow-list", dict(case, got=got, expected=want, real=os.path.realpath(path)))
+                if kind.startswith("user") and al is not None:
+                    # where the program was started from is not part of the rule: with the package directory itself (or a
+                    # directory inside or above it) on sys.path - `python pkg/run.py` - the answer is the same
+                    for extra in (os.path.join(work, "pkg"), os.path.join(work, "pkg", "sub"), work, os.path.dirname(os.path.realpath(path))):
+                        sys.path.insert(0, extra)
+                        try:
+                            mtconfig.default_code_filter.cache_clear()
+                            chk.evaluations += 1
+                            again = bool(mtconfig.default_code_filter(cos[0]))
+                        finally:
+                            sys.path.remove(extra)
+                        if again != got:
+                            chk.fail("allow-list", dict(case, got=again, expected=got, sys_path_entry=extra,
+                                                        detail="the filter's answer depends on sys.path"))
+                    mtconfig.default_code_filter.cache_clear()
                 if kind != "stdlib" or al is not None:
                     chk.nontriv("%s|%r" % (os.path.realpath(path), al))
                 reqs.append(("codeFilter", model_libs, "none" if al is None else tuple(Q(x) for x in al), info(path)))
